@@ -290,6 +290,8 @@ def jobs(tier):
         out.append(Job('C20', 'r.sem', t_sem, dict(L=1, n=2, scope='global', sem_timeout=None, raising=False), witnesses=W))
         out.append(Job('C20', 'r.sem', t_sem, dict(L=1, n=2, scope='global', sem_timeout='1/2', cancel=1, raising=False, nd=1),
                        witnesses=('cancelled while waiting', 'cancelled while running')))
+        out.append(Job('C20', 'r.sem', t_sem, dict(L=1, n=2, scope='global', sem_timeout='1/2', cancel=0, raising=False, nd=1),
+                       witnesses=('cancelled while running',)))
         out.append(Job('C20', 'r.sem', t_sem, dict(L=1, n=3, scope='two_names', sem_timeout='1/2', raising=False, nd=1), witnesses=W))
         out.append(Job('C20', 'r.sem', t_sem, dict(L=1, n=3, scope='class', sem_timeout='1/2', raising=False, nd=1), witnesses=W))
         out.append(Job('C20', 'r.sem', t_sem, dict(L=1, n=3, scope='self', sem_timeout='1/2', raising=False, nd=1), witnesses=W))
